@@ -22,6 +22,8 @@ func init() {
 			"C18.R3 pairing: StreamLength and /Length updated together",
 			"C18.R4 MPT: free-list re-link before success; section order of WriteContext",
 			"C18.R5 siblings: FreeObject's generation bump is taken back by UndeleteObject",
+			"C18.R6 cut: the trailer Size read from the input is repaired on both sides of MaxObjNr+1",
+			"C18.R7 TABLE: the fields of a cross-reference stream row by entry type come from the entry fields ISO 32000 7.5.8.3 names",
 		},
 		Assumptions: []string{"bufio.Writer reports the bytes it accepted"},
 		Technique:   "value-flow accounting (forward slice of write counts to Offset stores / returned counts); must-pass-through dataflow; store pairing typestate",
@@ -114,6 +116,10 @@ func runC18(c *Ctx) {
 	r.MinInst["C18.R4"] = 3
 	r.MinInst["C18.R5"] = 1
 	checkFreeReviveInverse(c)
+	r.MinInst["C18.R6"] = 1
+	checkTrailerSizeRepair(c)
+	r.MinInst["C18.R7"] = 3
+	checkXRefStreamRows(c)
 	// ---- R1
 	for _, fid := range c18Writers {
 		fn := p.Func(fid)
